@@ -528,7 +528,77 @@ func runC05(c *engine.Ctx) {
 	}
 
 	noiseN := 0
+	// a string-valued shadow of A (Map[string,string], the type the pipeline env block uses): same history,
+	// values flattened to strings; its observers are compared with A's model after every operation
+	sv := func(v mval) string {
+		if v.isMap {
+			return pairsString(v.nested)
+		}
+		return v.s
+	}
+	shadow := ordered.NewMap[string, string](0)
+	for _, q := range A.model.pairs {
+		shadow.Set(q.k, sv(q.v))
+	}
+	checkShadow := func(lastOp string) {
+		want := A.model.pairs
+		failS := func(what, f string, args ...any) {
+			c.Fail("C05."+what, "string-valued shadow after "+lastOp, "A's shadow (Map[string,string], same history): "+f+"\nmodel %s\nhistory: %s", append(args, pairsString(want), strings.Join(opTrace, "; "))...)
+		}
+		if shadow.Len() != len(want) {
+			failS("len", "Len()=%d, model has %d", shadow.Len(), len(want))
+		}
+		i := 0
+		shadow.Range(func(k, v string) error {
+			if i >= len(want) || want[i].k != k || sv(want[i].v) != v {
+				failS("range", "Range item %d is %q=%q", i, k, v)
+			}
+			i++
+			return nil
+		})
+		for pass := 0; pass < 2; pass++ {
+			// twice in a row: the second encoding of an unchanged map says the same as the first
+			var b []byte
+			var err error
+			c.Guard("C05.panic", "MarshalJSON of the shadow after "+lastOp, func() { b, err = shadow.MarshalJSON() })
+			ps, derr := decodeJSONPairs(b)
+			if err != nil || derr != nil || len(ps) != len(want) {
+				failS("json", "MarshalJSON gives %q (%v %v)", b, err, derr)
+			}
+			for j := range ps {
+				if ps[j].k != want[j].k || ps[j].v.s != sv(want[j].v) {
+					failS("json", "MarshalJSON gives %q", b)
+				}
+			}
+		}
+		fresh := ordered.NewMap[string, string](0)
+		for _, q := range want {
+			fresh.Set(q.k, sv(q.v))
+		}
+		if !ordered.EqualSS(shadow, fresh) || !ordered.EqualSS(fresh, shadow) {
+			failS("equal.fresh", "not Equal to a fresh map holding the model's pairs")
+		}
+		fj, _ := fresh.MarshalJSON()
+		sj, _ := shadow.MarshalJSON()
+		if string(fj) != string(sj) {
+			failS("json", "two Equal maps encode differently: %q vs fresh %q", sj, fj)
+		}
+	}
 	apply := func(st *c05store, op int, k1, k2 string, v mval) string {
+		if st == A && !reentrant {
+			// (runs with the re-entrant iterator task rename keys of A behind this function's back)
+			defer func() {
+				switch op {
+				case 0:
+					shadow.Set(k1, sv(v))
+				case 1:
+					shadow.Replace(k1, k2, sv(v))
+				case 2:
+					shadow.Delete(k1)
+				}
+				checkShadow([]string{"Set", "Replace", "Delete"}[op])
+			}()
+		}
 		var desc string
 		switch op {
 		case 0:
